@@ -38,6 +38,9 @@ func (c *Case) actionText(i int, lang string) string {
 		return ""
 	}
 	txt := fmt.Sprintf("vhLogR(%d)", i+1)
+	if i%3 == 1 {
+		txt = "/* rule " + fmt.Sprint(i+1) + " */ " + txt // actions may contain comments of their own
+	}
 	if lang == "go" && c.NestRule == i+1 {
 		txt = "vhNest(); " + txt
 	}
